@@ -47,7 +47,11 @@ def fam_model(name):
         fam = U.family(name)
         m = fam.model_family()
         if fam.level != 0:
-            m["pattern"] = R.Automaton(LEVEL_SEQUENCE_RESTRICTIONS[Levels(fam.level)].sequence_restriction_regex)
+            from vlib.ref.levels_ref import REFERENCE_PATTERNS
+
+            # the standard's pattern (independent transcription), not the table of the code under test
+            m["pattern"] = R.Automaton(REFERENCE_PATTERNS.get(fam.level) or
+                                       LEVEL_SEQUENCE_RESTRICTIONS[Levels(fam.level)].sequence_restriction_regex)
         _fam_models[name] = (fam, m)
     return _fam_models[name]
 
@@ -209,7 +213,7 @@ def cases(spec, ctx):
     if spec["mode"] == "levelmix":
         fam, m = fam_model(spec["family"])
         full = "FS:%d:0" % fam.nsl
-        alpha = ["PIC", "F0", full, "PAD", "SH"]
+        alpha = ["PIC", "F0", full, "PAD", "AUX", "SH"]
         if fam.nsl > 1:
             alpha.append("FS:1:0")
         batch = []
